@@ -38,6 +38,7 @@ class Ob:
         bounds="",
         kind="ch",
         nontrivial=True,
+        smt=None,
     ):
         self.name = name
         self.params = list(params)  # [(name, type)]
@@ -52,6 +53,7 @@ class Ob:
         self.bounds = bounds
         self.kind = kind  # 'ch' (CrossHair) | 'smt' (direct solver query, see ksmt/rxq)
         self.nontrivial = nontrivial
+        self.smt = smt  # kind == 'smt': callable() -> dict(verdict, queries, cex, detail)
 
     def engine_label(self):
         if self.kind != "ch":
